@@ -98,6 +98,13 @@ func (app *App) checkRecovery() {
 		return
 	}
 
+	if sstatus == nil {
+		// stuck commits on a marked host that is still the recorded master: it is not a replica yet,
+		// so there are no positions to compare
+		app.logger.Info().Msg("recovery: waiting for manager to turn us to a new master")
+		return
+	}
+
 	app.logger.Info().Msgf("recovery: master %s has GTIDs %s", master, mgtids)
 	app.logger.Info().Msgf("recovery: local node %s has GTIDs %s", localNode.Host(), sstatus.GetExecutedGtidSet())
 
